@@ -921,3 +921,154 @@ def rule_external_io_positioned(ctx):
                 ctx.violated("EXTSEEK", key, f.where(line), "%s on the external stream `%s` can be reached without an fseek on that stream since it was opened or last used: the bytes go to the stream's current position, not to the element's offset in the external file" % (call, st))
     ctx.floor("EXTSEEK", 3, n, "(transfers on an external element's stream)")
     return n
+
+
+# ---------------------------------------------------------------------------------------------------------------------
+_GROUP_SINKS = {"Hputelement": (1, 2), "Hstartwrite": (1, 2), "DFdiwrite": (2, 3), "Hdupdd": (1, 2), "DFputcomp": (1, 2),
+                "HLcreate": (1, 2), "HCcreate": (1, 2), "Hstartaccess": (1, 2)}
+
+
+def rule_group_ref_free_for_all_tags(ctx):
+    """GROUPREF (C09, C17): the single-file interfaces store an object as a group whose members all carry the group's
+    reference: DFGRaddrig writes ID, NT, LD, LUT and RIG under one `ref`, DFR8putrig and DFSDIputndg do the same for their
+    groups.  Hputelement on a tag/ref that already exists *replaces* that element.  So the reference handed to such a group
+    writer must be unused for every tag (Hnewref); one taken from Htagnewref(file, T) is unused for T only, and in a file that
+    already holds an image written through GR the ID/NT/LD records of that image are overwritten."""
+    from .facts import int_name
+    prog = ctx.prog
+    writers = {}
+    for f in prog.lib_funcs():
+        pn = [(p[0] if isinstance(p, (list, tuple)) else p.get("name")) for p in f.params]
+        use = {}
+        for _b, _i, _s, c in f.calls():
+            if c[1] in _GROUP_SINKS:
+                ti, ri = _GROUP_SINKS[c[1]]
+                if len(c[3]) > ri:
+                    r, t = strip(c[3][ri]), strip(c[3][ti])
+                    if kind(r) == "var" and r[1] in pn and kind(t) == "int" and int_name(t):
+                        use.setdefault(r[1], set()).add(int_name(t))
+        for v, ts in use.items():
+            if len(ts) >= 3:
+                writers[f.name] = (pn.index(v), sorted(ts))
+    # where does a variable get its value from, anywhere in the file (the DF interfaces keep refs in file-scope variables)
+    n = 0
+    for f in prog.lib_funcs():
+        k = 0
+        for _b, _i, s, c in f.calls():
+            if c[1] not in writers:
+                continue
+            idx, tags = writers[c[1]]
+            if len(c[3]) <= idx:
+                continue
+            k += 1
+            n += 1
+            key = "GROUPREF:%s:%s#%d" % (f.name, c[1], k)
+            a = strip(c[3][idx])
+            line = s.get("l", f.line)
+            if kind(a) != "var":
+                ctx.holds("GROUPREF", key, f.where(line), "the reference handed to %s is `%s` (not a local allocation)" % (c[1], render(a)[:40]), nontrivial=False)
+                continue
+            srcs = []
+            for g in prog.lib_funcs():
+                if g.file != f.file:
+                    continue
+                for _b2, _i2, _s2, x in g.nodes(True):
+                    rhs = None
+                    if x[0] == "asg" and x[1] == "=" and kind(strip(x[2])) == "var" and strip(x[2])[1] == a[1] and (g is f or len(a) > 2 and a[2] == "g"):
+                        rhs = x[3]
+                    elif x[0] == "decl" and g is f:
+                        for d in x[1]:
+                            if d[0] == a[1] and d[2] is not None:
+                                rhs = d[2]
+                    if rhs is not None:
+                        for cc in calls_in(rhs, True):
+                            if cc[1] in ("Htagnewref", "Hnewref"):
+                                srcs.append((cc[1], g.name))
+            bad = [s_ for s_ in srcs if s_[0] == "Htagnewref"]
+            if bad:
+                ctx.violated("GROUPREF", key, f.where(line), "`%s` comes from Htagnewref (in %s) and is handed to %s, which writes %s under it: the reference is unused for one tag only, existing elements of the other tags are overwritten" % (a[1], bad[0][1], c[1], ", ".join(tags)))
+            else:
+                ctx.holds("GROUPREF", key, f.where(line), "`%s` handed to %s (%s) %s" % (a[1], c[1], ", ".join(tags)[:50], "comes from Hnewref" if srcs else "is not allocated with Htagnewref"), nontrivial=bool(srcs))
+    ctx.floor("GROUPREF", 3, n, "(calls of a routine that writes a whole group under one reference)")
+    return n
+
+
+# ---------------------------------------------------------------------------------------------------------------------
+_FILE_PRIMS = {"fseek", "fread", "fwrite", "fseeko", "lseek", "read", "write"}
+_io_closure_cache = {}
+
+
+def _io_closure(prog):
+    """library functions that can move the position of the HDF file (reach a stdio seek/read/write through calls)"""
+    if id(prog) in _io_closure_cache:
+        return _io_closure_cache[id(prog)]
+    callers = prog.callers()
+    clo, work = set(), []
+    for f in prog.lib_funcs():
+        for _b, _i, _s, c in f.calls():
+            if c[1] in _FILE_PRIMS and f.name not in clo:
+                clo.add(f.name)
+                work.append(f.name)
+    while work:
+        g = work.pop()
+        for cf, _call in callers.get(g, []):
+            if cf.name not in clo:
+                clo.add(cf.name)
+                work.append(cf.name)
+    _io_closure_cache[id(prog)] = clo
+    return clo
+
+
+def rule_seek_then_transfer(ctx):
+    """SEEKGAP (C01, C16): HPseek(file_rec, off) positions the one file pointer of the file record for the HP_read/HP_write that
+    follows; the transfer itself takes no offset.  Between the two, on every path that is not already an error exit, nothing
+    is called that can itself reach a seek, read or write of the file - such a call (a descriptor update with the DD cache
+    switched off writes the DD block at once) leaves the pointer somewhere else and the transfer lands there: appended bytes
+    end up inside the DD block and the element keeps stale data."""
+    prog = ctx.prog
+    clo = _io_closure(prog)
+    n = 0
+    for f in prog.lib_funcs():
+        k = 0
+        for bid, b in f.blocks.items():
+            for i, s in enumerate(b["s"]):
+                if not any(c[1] == "HPseek" for c in calls_in(s["e"])):
+                    continue
+                seen, bad, hit = set(), [], 0
+                stack = [(bid, i + 1)]
+                while stack:
+                    bb, ii = stack.pop()
+                    if (bb, ii) in seen:
+                        continue
+                    seen.add((bb, ii))
+                    blk = f.blocks.get(bb)
+                    if not blk:
+                        continue
+                    stop = False
+                    for j in range(ii, len(blk["s"])):
+                        for c2 in calls_in(blk["s"][j]["e"]):
+                            if c2[1] in ("HP_read", "HP_write"):
+                                stop = True
+                                hit += 1
+                            elif c2[1] in ("HPseek", "HEpush", "HEreport"):
+                                stop = True       # a new positioning, or an error exit
+                            elif c2[1] in clo and not stop:
+                                bad.append((c2[1], blk["s"][j].get("l", 0)))
+                        if stop:
+                            break
+                    if not stop:
+                        for su in blk["succ"]:
+                            if su >= 0:
+                                stack.append((su, 0))
+                if not hit:
+                    continue          # a seek for its own sake (Hseek-like), nothing to protect
+                k += 1
+                n += 1
+                key = "SEEKGAP:%s#%d" % (f.name, k)
+                line = s.get("l", f.line)
+                if bad:
+                    ctx.violated("SEEKGAP", key, f.where(line), "between this HPseek and the transfer it positions for, %s (line %d) is called, which can itself seek/read/write the file: the transfer happens wherever that call left the file pointer" % (bad[0][0], bad[0][1]))
+                else:
+                    ctx.holds("SEEKGAP", key, f.where(line), "nothing that can move the file pointer is called between the HPseek and its transfer", nontrivial=True)
+    ctx.floor("SEEKGAP", 12, n, "(HPseek calls that position for an HP_read/HP_write)")
+    return n
